@@ -48,6 +48,7 @@ fn main() {
         replay: None,
         run_index: None,
         first_run: 0,
+        no_extras: false,
         write_evidence: true,
         log_hashes: false,
         max_seconds: None,
@@ -108,6 +109,7 @@ fn main() {
                 i += 1;
             }
             "--no-evidence" => args.write_evidence = false,
+            "--no-extras" => args.no_extras = true,
             "--log-hashes" => args.log_hashes = true,
             "--quiet" => args.quiet = true,
             _ => usage(),
